@@ -19,6 +19,7 @@
    Sync(k, force)   can._sync(force)         -> read when a copy exists and (stale or force), else pin when absent
    Pin(k)           can._pin()
    Inject(k)        hold[k] = can            -> sets _sdb/_key, then _sync()
+   Swap(k)          hold[k] = Can()          -> a fresh object replaces the one held at k
    Close            subery.close()
    Open(F)          subery.reopen(), a new Hold, and for every key: a FRESH Can() (k in F) or the same object, injected
 *)
@@ -77,6 +78,15 @@ Inject(k) == /\ More /\ ~inj[k]
              /\ inj' = [inj EXCEPT ![k] = TRUE] /\ UNCHANGED <<opened, lostw>>
              /\ Rec("inject", k, "-", "-")
 
+\* hold[k] = Can() while another object is held at k: the new object takes the key (a fresh object is stale: it reads the
+\* copy when there is one and the environment is open); the old object keeps its _sdb/_key but is no longer observed
+Swap(k) == /\ More /\ inj[k]
+           /\ LET e == SyncEff(k, FALSE, TRUE, None, opened) IN
+              /\ mem' = [mem EXCEPT ![k] = e[1]] /\ dur' = [dur EXCEPT ![k] = e[2]]
+              /\ stale' = [stale EXCEPT ![k] = e[3]]
+              /\ lostw' = [lostw EXCEPT ![k] = FALSE]
+           /\ UNCHANGED <<inj, opened>> /\ Rec("swap", k, "-", "-")
+
 Close == /\ More /\ opened /\ opened' = FALSE /\ UNCHANGED <<mem, dur, stale, inj, lostw>> /\ Rec("close", "all", "-", "-")
 
 \* reopen: every key gets a fresh object (F) or keeps its object; every object that was in the Hold is injected again
@@ -91,7 +101,7 @@ Open(F) == /\ More /\ ~opened /\ opened' = TRUE
 
 Next == \/ \E k \in Keys, v \in Vals \cup {None} : Set(k, v) \/ Update(k, v)
         \/ \E k \in Keys, f \in BOOLEAN : Sync(k, f)
-        \/ \E k \in Keys : Pin(k) \/ Inject(k)
+        \/ \E k \in Keys : Pin(k) \/ Inject(k) \/ Swap(k)
         \/ Close
         \/ \E F \in SUBSET {k \in Keys : inj[k]} : Open(F)
 Spec == Init /\ [][Next]_vars
